@@ -1,0 +1,47 @@
+//go:build verif
+
+// Contracts for the gowp verifier (/verif). Comment-only file: compiled only with -tags verif and
+// contributes no code either way.
+
+package lnwire
+
+//@ func (fv *RawFeatureVector) decode
+//@   props C10
+//@   requires 0 <= length && length <= 65535 && 1 <= width && width <= 8
+//@   loop 0 invariant 0 <= i && i <= bitsNumber && bitsNumber == len(data) * width && len(data) == length
+//@   site make: assert arg(len) == length
+//@   site call ReadFull: assert arg(0) == r && arg(1) == data
+//@   nowrap-arith
+//@   nopanic
+//@
+//@ func (c *ReplyChannelRange) Decode
+//@   props C10
+//@   requires len(c.Timestamps) == 0
+//@   loop * havoc
+//@   ensures result == nil && len(c.Timestamps) != 0 ==> len(c.Timestamps) == len(c.ShortChanIDs)
+//@
+//@ extern func (b *bytes.Buffer) Len
+//@   ensures 0 <= result && result <= 1 << 40
+//@
+//@ extern func (b *bytes.Buffer) Write
+//@   ensures 0 <= result0 && result0 <= 1 << 40
+//@
+//@ func ErrorEncodeMessage
+//@   props C10
+//@   ensures result != nil
+//@   modifies nothing
+//@
+//@ func ErrorWriteMessageType
+//@   props C10
+//@   ensures result != nil
+//@   modifies nothing
+//@
+//@ func ErrorPayloadTooLarge
+//@   props C10
+//@   ensures result != nil
+//@   modifies nothing
+//@
+//@ func WriteMessage
+//@   props C10
+//@   ensures result1 == nil ==> ret(Len, 1) - ret(Len, 0) - retn(Write, 0) <= 65533 && result0 == ret(Len, 2) - ret(Len, 0)
+//@   site call Encode: assert arg(1) == buf && retn(Write, 1) == nil
